@@ -93,7 +93,7 @@ under `-d` as they are otherwise, `expr_eval_command` forks; no action is execut
 theorem dryrun_no_mutation (env : PEnv) (orc : EvalOracles) (ok : Bool) (conf : List ConfBlock) (files : Files) (input : Bytes)
     (w : World) (plan : Plan) (hd : env.dryrun = true) (hm : env.stdinMode = false) :
     ∀ c ∈ callsOf plan (mainP env orc ok conf files input) w,
-      c.mutating = false ∧ (c = .fork → World.confHasCommand conf = true) :=
+      c.mutating = false ∧ (c = .fork → confHasCommand conf = true) :=
   World.quiet_callsOf _ plan _ w (World.quiet_mainP env orc ok conf files input hd hm)
 
 /-- C04: the exit status is computed from the error and reject flags only: 0/1 in maildir mode;
